@@ -6,6 +6,7 @@ import Flumine.Controls
 import Flumine.DriverSim
 import Flumine.DriverWorld
 import Flumine.DriverRef
+import Flumine.DriverMerge
 open Flumine Flumine.Proto
 
 def parseLadder? (s : String) : Option LadderDef :=
@@ -104,6 +105,8 @@ def handlePacks (toks : List String) : Option String := do
 def handle (toks : List String) : String :=
   match toks with
   | "packs" :: _ => (handlePacks toks).getD "bad-op"
+  | "merge.run" :: _ => (DriverMerge.handle toks).getD "bad-op"
+  | "merge.filter" :: _ => (DriverMerge.handle toks).getD "bad-op"
   | ["nearest", p] =>
     match parseRat? p with
     | some x => showRat (nearestPrice x)
